@@ -978,7 +978,8 @@ def _check_locations(ctx, prog, W, R, exp_ci, imp_ci):
             if isinstance(s, ast.If) and isinstance(s.test, ast.Compare) and len(s.test.ops) == 1 and \
                     isinstance(s.test.ops[0], ast.Eq) and isinstance(s.test.left, ast.Name) and \
                     s.test.left.id in locnames and const_value(s.test.comparators[0]) is not None:
-                names = set()
+                names = {x.value for b_ in s.body for x in ast.walk(b_) if isinstance(x, ast.Constant) and isinstance(x.value, str)
+                         and x.value.endswith("_id")}            # the level name may be an argument of a shared helper
                 for c in calls_in(s):
                     for k in prog.resolve_call(fi, c):
                         callee = prog.functions.get(k)
@@ -1029,6 +1030,8 @@ def _check_locations(ctx, prog, W, R, exp_ci, imp_ci):
             continue
         rn, fi, s = handled[val]
         wl = wlevels.get(member, set())
+        if wl and not rn:
+            raise AnalysisError("location %s: the id level the importer gives the stored ids was not found" % member)
         if wl and not (wl & rn):
             ctx.violated(fi, s, "location %s: exporter stores %s ids, importer interprets them as %s" %
                          (member, sorted(wl), sorted(rn)))
